@@ -56,7 +56,8 @@ Inductive korigin := OClass (c : cls) | OProv (p : kprov).
 
 Record kcls := mkKC { kc_pybases : list cls; kc_declared : list node; kc_inherit : bool;
                       kc_bases : list node; kc_provides : list node; kc_meta : option (list iface);
-                      kc_builtin : bool; kc_created : bool }.
+                      kc_builtin : bool; kc_created : bool;
+                      kc_old : option (list node) }.   (* an old-style ``__implemented__`` in the class's __dict__ *)
 Record kinst := mkKI { ki_cls : cls; ki_live : bool; ki_provides : option (list node) }.
 Record kstate := mkK { kclasses : list kcls; kinsts : list kinst;
                        kcache : list (kkey * list node); kexc : option nat }.
@@ -69,7 +70,7 @@ Definition p_implementedBy (r : kclsref) : node :=
   match r with RClass c => NC c | RMeta l => NM l | _ => NT end.
 Definition embed_cls (r : crec) : kcls :=
   mkKC (c_bases r) (map NI (c_decl r)) (c_inherit r) (spec_bases r)
-       (map NI (c_cprov r) ++ [p_implementedBy (meta_ref (c_meta r))]) (c_meta r) (c_builtin r) true.
+       (map NI (c_cprov r) ++ [p_implementedBy (meta_ref (c_meta r))]) (c_meta r) (c_builtin r) true None.
 Definition embed_inst (r : irec) : kinst :=
   mkKI (i_cls r) (i_live r) (option_map (fun k => map NI k ++ [NC (i_cls r)]) (i_prov r)).
 Definition embed_entry (e : ckey * list iface) : kkey * list node :=
@@ -83,9 +84,10 @@ Definition embed (st : state) : kstate := embed_exc st None.
 Definition zembed_cls (p : crec * bool) : kcls :=
   let r := fst p in
   if snd p then
-    if c_builtin r then mkKC (c_bases r) (map NI (c_decl r)) (c_inherit r) (spec_bases r) [] (c_meta r) true true
+    if c_builtin r then mkKC (c_bases r) (map NI (c_decl r)) (c_inherit r) (spec_bases r) [] (c_meta r) true true None
     else embed_cls r
-  else mkKC (c_bases r) [] false [] [] (c_meta r) (c_builtin r) false.
+  else mkKC (c_bases r) [] false [] [] (c_meta r) (c_builtin r) false
+            (if c_inherit r then None else Some (map NI (c_decl r))).
 Definition zembed (z : zstate) (x : option nat) : kstate :=
   mkK (map zembed_cls (combine (classes (fst z)) (snd z))) (map embed_inst (insts (fst z)))
       (map embed_entry (cache (fst z))) x.
@@ -122,9 +124,9 @@ Definition kset (s : kstate) (spec : node) (f : kcls -> kcls) : kstate :=
 Definition p_declared (s : kstate) (spec : node) : list node :=
   match kget s spec with Some r => kc_declared r | None => [] end.
 Definition p_set_declared (s : kstate) (spec : node) (l : list node) : kstate :=
-  kset s spec (fun r => mkKC (kc_pybases r) l (kc_inherit r) (kc_bases r) (kc_provides r) (kc_meta r) (kc_builtin r) (kc_created r)).
+  kset s spec (fun r => mkKC (kc_pybases r) l (kc_inherit r) (kc_bases r) (kc_provides r) (kc_meta r) (kc_builtin r) (kc_created r) (kc_old r)).
 Definition p_set_inherit_none (s : kstate) (spec : node) : kstate :=
-  kset s spec (fun r => mkKC (kc_pybases r) (kc_declared r) false (kc_bases r) (kc_provides r) (kc_meta r) (kc_builtin r) (kc_created r)).
+  kset s spec (fun r => mkKC (kc_pybases r) (kc_declared r) false (kc_bases r) (kc_provides r) (kc_meta r) (kc_builtin r) (kc_created r) (kc_old r)).
 Definition p_inherit_is_set (s : kstate) (spec : node) : bool :=
   match kget s spec with Some r => kc_inherit r | None => false end.
 Definition p_inherit_pybases (s : kstate) (spec : node) : list kclsref :=
@@ -206,7 +208,7 @@ Definition p_set_bases (chg : igraph -> kstate -> kprov -> korigin -> kstate)
       match nth_error (kclasses s) c with
       | None => s
       | Some r =>
-          let s1 := mkK (upd (kclasses s) c (mkKC (kc_pybases r) (kc_declared r) (kc_inherit r) bases (kc_provides r) (kc_meta r) (kc_builtin r) (kc_created r)))
+          let s1 := mkK (upd (kclasses s) c (mkKC (kc_pybases r) (kc_declared r) (kc_inherit r) bases (kc_provides r) (kc_meta r) (kc_builtin r) (kc_created r) (kc_old r)))
                         (kinsts s) (kcache s) (kexc s) in
           fold_left (fun acc e =>
                        match fst (fst e) with
@@ -251,7 +253,7 @@ Definition p_set_provides (s : kstate) (ob : target) (v : kprov) : kstate :=
                                (kcache s) (kexc s)
                | None => s
                end
-  | TCls c => kset s (NC c) (fun r => mkKC (kc_pybases r) (kc_declared r) (kc_inherit r) (kc_bases r) (snd v) (kc_meta r) (kc_builtin r) (kc_created r))
+  | TCls c => kset s (NC c) (fun r => mkKC (kc_pybases r) (kc_declared r) (kc_inherit r) (kc_bases r) (snd v) (kc_meta r) (kc_builtin r) (kc_created r) (kc_old r))
   end.
 (* ``getattr(object, '__provides__', None)``: an instance without its own __provides__ gets the
    class's ClassProvides descriptor, which answers with the Implements of the class *)
@@ -330,7 +332,8 @@ Definition p_implementedBy_super (s : kstate) (r : kclsref) : kstate * node := (
 Definition p_dict_get_implemented (s : kstate) (r : kclsref) : kdv :=
   match r with
   | RClass c => match nth_error (kclasses s) c with
-                | Some k => if kc_created k && negb (kc_builtin k) then DSpec (NC c) else DNone
+                | Some k => if kc_created k && negb (kc_builtin k) then DSpec (NC c)
+                            else match kc_old k with Some l => DOld l | None => DNone end
                 | None => DNone
                 end
   | RNone => DNone
@@ -350,20 +353,21 @@ Definition p_implements_name (r : kclsref) : kclsref := r.
 (* ``Implements.named(name, *bases)``: a new specification with declared = (), inherit = None
    (the class attributes) and the given __bases__ (nothing depends on it yet: no notification) *)
 Definition p_implements_named (s : kstate) (name : kclsref) (bases : list node) : kstate * kdv :=
-  (kcset s name (fun k => mkKC (kc_pybases k) [] false bases (kc_provides k) (kc_meta k) (kc_builtin k) (kc_created k)),
+  (kcset s name (fun k => mkKC (kc_pybases k) [] false bases (kc_provides k) (kc_meta k) (kc_builtin k) (kc_created k) (kc_old k)),
    DSpec (p_implementedBy name)).
 (* ``spec.inherit = cls`` *)
 Definition p_set_inherit_cls (s : kstate) (spec : node) (cls : kclsref) : kstate :=
-  kset s spec (fun k => mkKC (kc_pybases k) (kc_declared k) true (kc_bases k) (kc_provides k) (kc_meta k) (kc_builtin k) (kc_created k)).
+  kset s spec (fun k => mkKC (kc_pybases k) (kc_declared k) true (kc_bases k) (kc_provides k) (kc_meta k) (kc_builtin k) (kc_created k) (kc_old k)).
 Definition p_set_implements_cls (s : kstate) (spec : node) (cls : kclsref) : kstate := s.
-Definition p_del_dict_implemented (s : kstate) (cls : kclsref) : kstate := s.
+Definition p_del_dict_implemented (s : kstate) (cls : kclsref) : kstate :=
+  kcset s cls (fun k => mkKC (kc_pybases k) (kc_declared k) (kc_inherit k) (kc_bases k) (kc_provides k) (kc_meta k) (kc_builtin k) (kc_created k) None).
 Definition p_pybases (s : kstate) (r : kclsref) : list kclsref :=
   match kcget s r with Some k => map RClass (kc_pybases k) | None => [] end.
 (* does ``cls.__implemented__ = spec`` succeed (TypeError for an immutable type) *)
 Definition p_can_setattr (s : kstate) (r : kclsref) : bool :=
   match kcget s r with Some k => negb (kc_builtin k) | None => true end.
 Definition kmark_created (s : kstate) (r : kclsref) : kstate :=
-  kcset s r (fun k => mkKC (kc_pybases k) (kc_declared k) (kc_inherit k) (kc_bases k) (kc_provides k) (kc_meta k) (kc_builtin k) true).
+  kcset s r (fun k => mkKC (kc_pybases k) (kc_declared k) (kc_inherit k) (kc_bases k) (kc_provides k) (kc_meta k) (kc_builtin k) true (kc_old k)).
 Definition p_store_dict (s : kstate) (r : kclsref) (spec : node) : kstate := kmark_created s r.
 Definition p_table_set (s : kstate) (r : kclsref) (spec : node) : kstate := kmark_created s r.
 Definition p_hasattr_providedBy (s : kstate) (r : kclsref) : bool := false.
